@@ -92,7 +92,10 @@ func checkAuth(c *authCase) string {
 // whether producing E' needed the key (then E' is ineligible by rule instead).
 func mutateAuth(t *rapid.T, w *World, e Entry, signer Actor, txs []Tx, h uint32, minute int, st *Stats) (Entry, string) {
 	m := e.Clone()
-	kind := rapid.IntRange(0, 15).Draw(t, "authKind")
+	kind := rapid.IntRange(0, 17).Draw(t, "authKind")
+	if kind >= 16 {
+		kind = 11 // the salt window edge, signed with the key: three shares
+	}
 	flip := func(b []byte, label string) (int, bool) {
 		if len(b) == 0 {
 			return 0, false
